@@ -130,9 +130,9 @@ def table_tie(res):
 
 # ================================================================================================ 3a. differential
 
-def _stepout(notes, punts, commits, cursor, walk, auth, raised):
-    return "notes=%s punts=%d commits=%d cursor=%s walk=%s auth=%s raised=%s" % (
-        ",".join(notes) if notes else "-", punts, commits, enc_bool(cursor), enc_bool(walk), enc_bool(auth), raised)
+def _stepout(notes, punts, commits, cursor, walk, auth, raised, forgot=False):
+    return "notes=%s punts=%d commits=%d cursor=%s walk=%s forgot=%s auth=%s raised=%s" % (
+        ",".join(notes) if notes else "-", punts, commits, enc_bool(cursor), enc_bool(walk), enc_bool(forgot), enc_bool(auth), raised)
 
 
 class _Probe:
@@ -251,6 +251,8 @@ class _Probe:
         self.seq = getattr(self, "seq", 0) + 1
         w.user(1, "mkdir", "/remote/zz%d" % self.seq)
         before_cursor = p.current_cursor
+        if em._walk_tag is not None:
+            em.state.storage_update_data(em._walk_tag, 1.0)      # a walk marker is on record
 
         def boom(*a, **kw):
             raise cls("scripted")
@@ -270,9 +272,12 @@ class _Probe:
                 p.reconnect()
             em._EventManager__nmgr = saved_nm
         cursor_reset = p.current_cursor == p.latest_cursor and p.current_cursor != before_cursor and em.cursor == p.latest_cursor
-        out = _stepout(notes, 0, 0, cursor_reset, bool(em.need_walk), bool(em.need_auth), wire_cls(raised))
+        forgot = em._walk_tag is not None and em.state.storage_get_data(em._walk_tag) is None
+        out = _stepout(notes, 0, 0, cursor_reset, bool(em.need_walk), bool(em.need_auth), wire_cls(raised), forgot=forgot)
         em.need_auth = False
         em.need_walk = False
+        if em._walk_tag is not None:
+            em.state.storage_update_data(em._walk_tag, 1.0)
         for _ in range(3):
             w.step("R")
         drain_notifications(w)
@@ -405,6 +410,7 @@ class FaultWorld:
         self.stopped = False
         self.sigs = []             # (index, side, method, site, caller) for every counted call
         self.injected = []
+        self.armed = []            # mid-stream faults armed but not (yet) raised
         self.steps = []
         self.cur = None
         self.loop_mode = loop_mode
@@ -510,16 +516,22 @@ class FaultWorld:
         flt = Fault(index=k, side=side, method=m, kind=kind, variant=variant, site=site, step=len(self.steps),
                     target=a[0] if a else None)
         if variant == "mid" and m in STREAMS:
-            self.injected.append(flt)
-            self.cur.faults.append(flt)
+            # only ARMED here: it counts as injected at the moment it is really raised (`_raise`).  If the consumer stops
+            # iterating first (another fault, an exception while the first item is processed) it is never raised and
+            # therefore never judged
+            self.armed.append(flt)
             return flt
         self._raise(flt, prov)
 
     def _raise(self, flt, prov):
         import cloudsync.exceptions as ex
         if flt not in self.injected:
+            flt.step = len(self.steps)          # the step in which it is really raised
             self.injected.append(flt)
-            self.cur.faults.append(flt)
+            if self.cur is not None:
+                self.cur.faults.append(flt)
+        if flt in self.armed:
+            self.armed.remove(flt)
         if flt.kind == "CloudDisconnectedError" or (flt.kind == "CloudTokenError" and flt.variant == "expired"):
             prov.disconnect()          # the connection is gone until somebody reconnects
         raise getattr(ex, flt.kind)("injected fault %s" % flt.brief())
@@ -899,6 +911,7 @@ class Judge:
         st = self.stats
         st["faults_injected"] += len(fw.injected)
         st["not_reached"] += len([1 for k in fw.plan])
+        st["armed_never_raised"] = st.get("armed_never_raised", 0) + len(fw.armed)
         st["runs_two_faults"] += 1 if len(fw.injected) > 1 else 0
         st["loop_mode_runs"] += 1 if fw.loop_mode else 0
         st["sqlite_runs"] += 1 if script.storage == "sqlite" else 0
@@ -1275,14 +1288,16 @@ def _round_robin(fw, rounds=60):
 
 
 def _replay_change_lookup():
-    """flavour oid-oid; user creates /a on the local side; steps L, R; then a sync step in which the first provider call
-    issued from SyncState.change (info_oid, path fill-in) raises CloudTemporaryError"""
+    """flavour oid-oid; steps L, R (initial walks); user creates /a on the local side; step L (the event has no path);
+    then a sync step in which the first provider call issued from SyncState.change (info_oid, path fill-in) raises
+    CloudTemporaryError"""
     fw = FaultWorld("oid-oid")
     try:
         w = fw.w
-        w.user(0, "create", "/local/a", b"v1")
-        fw.step("L")
+        fw.step("L")                       # initial walks
         fw.step("R")
+        w.user(0, "create", "/local/a", b"v1")
+        fw.step("L")                       # the create event of an id-style provider carries no path
         fw.force_site = ("C", "CloudTemporaryError")
         st = fw.step("S")
         hit = fw.forced is not None and st.escaped is not None and st.escaped.__name__ == "CloudTemporaryError" \
